@@ -426,10 +426,10 @@ CHECKS["C19"] = {
                  "with an independent reference unifier; differential across registration orders",
     "design_ref": "DESIGN.md 2/C19",
     "parts": [{"name": "resolve", "exe": "c19_resolve", "sources": ["c19_resolve.cpp"], "shards": 16}],
-    "rule": "candidates are built at run time as erased OperatorImpl records from a mini-AST: 13 one-parameter patterns (TS<Int>, TS<Float>, TS<T>, "
+    "rule": "candidates are built at run time as erased OperatorImpl records from a mini-AST: 14 one-parameter patterns (TS<Int>, TS<Float>, TS<T>, "
             "TS<U>, two whole-time-series variables, TSL<TS<Int>,2>, TSL<TS<T>,N>, TSL<S,N>, TSS<T>, TSD<K,V>, TSD<Int,V>, SIGNAL) and 9 two-parameter "
             "ones ((Int,Int), (T,T), (T,U), (S,S), (S,R), (Int,T), (TSL<T,N>,TSL<T,N>), (TSL<T,N>,TSL<T,M>), (Int,Float)), each with an output pattern; "
-            "arguments from 11 concrete types (TS<Int|Float|Str>, TSL of sizes 2/3/dynamic, TSS, two TSDs, SIGNAL). Every family of 1..K candidates "
+            "arguments from 15 concrete types (TS<Int|Float|Str>, TSL of sizes 2/3/dynamic, TSS, two TSDs, SIGNAL, three bundle types of one shape - two named, one structural - and a list of one of them). Families with a size-variable candidate are also resolved with a caller-pinned SIZE hint (2, 3), which binds the candidate's first size variable before matching; one candidate spells its size variable differently from the others. Every family of 1..K candidates "
             "x EVERY registration order x every argument tuple (registry reset between). Oracle: identical outcome for all orders; no candidate "
             "matches (reference unifier) <=> resolution error; winner matches; every variable of the winner bound to the one type the arguments "
             "require; resolved output type == substitution of the bindings; winner has the strictly lowest rank among matching candidates and a "
